@@ -16,9 +16,10 @@ EXTENDS PropsCodec, Coins
 
 ModelCovers == /\ Delivered /\ Tx.intact /\ Tx.mut = "" /\ (Supported(st, Tx) \/ StakingSupported(st, Tx) \/ CoinsSupported(st, Tx)) /\ "st" \in DOMAIN ev'
                /\ (Tx.type = "RedeemCheck" => (HasArg("issuer") /\ HasArg("proofOk")))
-               /\ (Tx.type \in {"CreateToken", "RecreateToken"} => Code \notin {203, 204})      \* ticker and name well-formed (not part of the abstract transaction)
-NodeMaxSupply == (Nat2A(1000000) ** Nat2A(1000000000)) ** hist.unit       \* 10^15 coins
-Predicted == RunTxC(st, Tx, H, Cfg, NodeMaxSupply)
+               /\ (Tx.type \in {"CreateToken", "RecreateToken", "CreateCoin", "RecreateCoin"} => Code \notin {203, 204})      \* ticker and name well-formed (not part of the abstract transaction)
+NodeLimits == [maxSupply |-> (Nat2A(1000000) ** Nat2A(1000000000)) ** hist.unit,       \* 10^15 coins
+               minSupply |-> hist.unit, minReserve |-> Nat2A(10000) ** hist.unit]
+Predicted == RunTxC(st, Tx, H, Cfg, NodeLimits)
 Conf_Code ==
    Clause("DRIFT", "LedgerModelPredictsCode", ModelCovers, Predicted.code = Code,
           [at |-> WhereTx, predicted |-> Predicted.code])
